@@ -7,7 +7,7 @@ from flosim.gen import cfg_with
 class C06(FloCheck):
     pid = "C06"
     design_ref = "§6 C06"
-    cfg = cfg_with(nframes=(2, 7), p_child=0.7, p_under=0.25, p_ctx_extra=0.8, naux=(0, 2), p_caux=0.3, p_aux=0.15, p_bid=0.25, p_go=0.85)
+    cfg = cfg_with(p_susp_sibling=0.3, depth=4, p_go_early=0.6, p_go_me_parent=0.2, nframes=(3, 7), p_child=0.8, p_under=0.25, p_ctx_extra=0.8, naux=(0, 2), p_caux=0.45, p_aux=0.15, p_bid=0.25, p_go=0.85)
     rule = ("generated programs with recorder actions in the enter, exit, re-enter and re-exit contexts of every frame, biased to "
             "transitions to self, ancestors, descendants and other subtrees and to transitions / stops while a conditional aux "
             "suspends lower frames; from the recorder trace alone: enter / exit alternate per frame, at every run boundary the "
@@ -16,7 +16,7 @@ class C06(FloCheck):
             "top-down, enters top-down; plus the reference interpreter; non-trivial = a transition with a non-empty shared "
             "ancestor part happened; distinct = digest of per-run (status, active outline)")
     assumptions = ["the entered set is the full outline, including frames suspended under a conditional auxiliary (the statement's own wording)"]
-    required_probes = ["shared-ancestors", "forced-reentry", "stop-while-suspended", "rexit-renter"]
+    required_probes = ["shared-ancestors", "forced-reentry", "stop-while-suspended", "rexit-renter", "rexit-of-suspended-ancestor"]
 
     def relevant(self, kind):
         return kind in ("action-sequence", "event-kind", "length")
@@ -25,6 +25,13 @@ class C06(FloCheck):
         check_bracketing(plan, impl, out)
 
     def probes(self, plan, res, impl, out):
+        # a re-exit action of a frame that was suspended (below the cut) when the transition happened
+        cut = {}
+        for e in impl:
+            if e[1] == "sent" and e[5]:
+                cut[e[2]] = list(e[5][1])
+            elif e[1] == "rec" and e[5] == "rexit" and e[3] in cut and cut[e[3]] and e[4] not in cut[e[3]]:
+                out.probe("rexit-of-suspended-ancestor")
         last = {}
         for e in impl:
             if e[1] == "rec" and e[5] in ("rexit", "renter"):
